@@ -219,7 +219,7 @@ fn close_reason_codec() {
     assert!(LibTorrentCloseReason::parse(b) == c);
 }
 
-//@ harness id=wire.k.sack_codec kind=bounded props=C11,C04 tier=quick timeout=600 bound="SACK extension payload <= 12 bytes" text="SelectiveAck::deserialize(bytes): len() == 8*|bytes|; as_bytes() == first min(|bytes|,8) bytes zero-padded to 8; never panics"
+//@ harness id=wire.k.sack_codec kind=bounded props=C11,C04,C10 tier=quick timeout=600 bound="SACK extension payload <= 12 bytes" text="SelectiveAck::deserialize(bytes) (a selective ACK of ANY length a peer may send, here up to 12 bytes): len() == 8*|bytes|; as_bytes() == first min(|bytes|,8) bytes zero-padded to 8; never panics"
 #[kani::proof]
 #[kani::unwind(14)]
 fn sack_codec() {
